@@ -152,6 +152,15 @@ def route_case(ctx, case):
             raise final_exc
     fkw = {'none': None, 'false': False, 'return': final_fn,
            'raise': final_fn}[final]
+    if case.get('final_falsy') and final in ('return', 'raise'):
+        # a final handler is any callable - also one whose truth value is
+        # False (an empty list subclass used as an error log, say); only
+        # None and False switch the final handler off
+        class ErrorLog(list):
+            def __call__(self, exc, exc_info):
+                return final_fn(exc, exc_info)
+        fkw = ErrorLog()
+        ctx.label('final_handler_falsy_callable')
     exits = []
     with vnet.installed(world):
         def on_exit():
@@ -424,6 +433,7 @@ def case_strategy():
         'compress': st.sampled_from([None, None, 0, 256]),
         'version': st.sampled_from([757, 757, 340, 47]),
         'decorator': st.booleans(),
+        'final_falsy': st.sampled_from([False, False, True]),
         'reset': st.sampled_from([False, False, True])})
 
 
@@ -484,6 +494,12 @@ def t_origins(ctx):
                         'origin': origin, 'exc': 'B', 'chain': chain,
                         'final': final, 'final_new': 'EOFError',
                         'compress': comp, 'version': 757}))
+                if final in ('return', 'raise'):
+                    route_case(ctx, fix_case({
+                        'origin': origin, 'exc': 'B', 'chain': chain,
+                        'final': final, 'final_new': 'EOFError',
+                        'compress': None, 'version': 757,
+                        'final_falsy': True}))
                 if origin in ('listener', 'early_listener'):
                     route_case(ctx, fix_case({
                         'origin': origin, 'exc': 'B', 'chain': chain,
